@@ -134,7 +134,7 @@ CHECKS = {
     },
     "C20": {
         "engine": "vp-store", "level": "exploration",
-        "rule": "sync configuration sweep (sync interval 1/3/10/50/200/1000 ms, idle interval 1/10/50/500 ms, max batch 1/10/50/1000, min sync bytes 1/4096/64 KiB/1 MiB) x 1/2/8/32/64 concurrent clients x 1-4 buckets x 1..buckets writer threads x 128 KiB/1 MiB segments; clients append 1-3 event transactions (payload tiny / 4-13 KB / a fifth of a segment, so rollovers happen) in bursts followed by silence; every call is registered open at invoke and closed at return (success or error). Monitor (every 20 ms, on the hook event log): an open append whose transaction was written, whose end offset was covered by an fsync of its segment (or whose segment was sealed), after which more than 50 flush_poll/fsync events passed = violation; written but not covered after 200 flush polls = violation; 120 s wall clock without a logical verdict = inconclusive. non-trivial = distinct (sync interval, idle interval, max batch, min bytes, clients, buckets, writer threads, segment size) combinations",
+        "rule": "sync configuration sweep (sync interval 1/3/10/50/200/1000 ms, idle interval 1/10/50/500 ms, max batch 1/10/50/1000, min sync bytes 1/4096/64 KiB/1 MiB) x 1/2/8/32/64 concurrent clients x 1-4 buckets x 1..buckets writer threads x 128 KiB/1 MiB segments; clients append 1-3 event transactions (payload tiny / 4-13 KB / a fifth of a segment, so rollovers happen) in bursts followed by silence; every call is registered open at invoke and closed at return (success or error). Monitor (every 20 ms, on the hook event log): an open append whose transaction was written, whose end offset was covered by an fsync of its segment (or whose segment was sealed), after which more than 200 flush polls of its own writer thread passed (and still open after a further 200 ms) = violation; written but not covered after 400 flush polls of its writer thread = violation; 60 s wall clock without a logical verdict = inconclusive. non-trivial = distinct (sync interval, idle interval, max batch, min bytes, clients, buckets, writer threads, segment size) combinations",
         "assumptions": A_COMMON + ["'bounded time' is restated as bounded logical progress (events of the writer thread), because no finite run decides an unbounded bound and wall-clock deadlines are not verdicts on a loaded machine", "healthy disk: no I/O errors are injected"],
         "quick": {"shards": 16, "budget_s": 30, "min_evals": 300, "min_counters": {"appends_completed": 50000, "flush_polls_observed": 5000}},
         "thorough": {"shards": 32, "parallel": 16, "budget_s": 300, "min_evals": 10000, "extras": ["tsan_store"]},
